@@ -11,10 +11,10 @@ PROFILES = ['debug', 'release']
 RULE = ('malformed-input stream for the decoding entry points, debug and release builds, panics caught: decode_data / decode_str on random '
         'bytes, every codeword value after every latch, truncated valid streams, ECI designators of every form followed by every byte; '
         'decode_error on random words of every size, words with t or more leading zero syndromes (constructed by solving for them), words '
-        'far outside the radius; try_from_bits / DataMatrix::decode on random arrays, renderings of random codeword vectors (valid finder, '
+        'far outside the radius, the zero codeword with wrong codewords at the first / last data and error position of every interleaved block of every size; try_from_bits / DataMatrix::decode on random arrays, renderings of random codeword vectors (valid finder, '
         'garbage content) and wrong shapes; non-trivial = input rejected or accepted after real work (not an empty input); ECI designators of every form with every second / third codeword value; the regression corpus of former panic witnesses')
-THEOREMS = 'C05_decode_data, C05_decode_str, C05_try_from_bits, C05_rs_decoder, C05_rs_locator, C05_rs_success_shape, C05_codewords_total, C05_decode_glue, C05_decode_symbol'
-ASSUMPTIONS = ['partial: the Reed-Solomon decoder is proved free of index, division, underflow, assertion and termination failures for every word EXCEPT the debug-build self-check of identities (3)/(4) in the Levinson-Durbin loop (PAssertLD, absent from release builds); that this self-check never fires is covered by the debug+release correspondence and the malformed-word families', 'hang detection: wall-clock limit on the harness process', 'allocation failure and stack exhaustion are outside the model']
+THEOREMS = 'C05_decode_data, C05_decode_str, C05_try_from_bits, C05_rs_decoder, C05_rs_locator, C05_rs_locator_total, C05_rs_decoder_total, C05_rs_success_shape, C05_codewords_total, C05_decode_glue, C05_decode_symbol, C05_decode_symbol_total'
+ASSUMPTIONS = ['hang detection: wall-clock limit on the harness process', 'allocation failure and stack exhaustion are outside the model']
 
 
 def gen_cases(rng, tier, ctx):
@@ -67,6 +67,21 @@ def gen_cases(rng, tier, ctx):
                     if z is not None:
                         add('rs_decode %d %s' % (i, fmt_list(z)), 'rs-leading-zero-syndromes')
         add('rs_decode %d %s' % (i, fmt_list([0] * nw)), 'rs-zero')
+        # the zero codeword with one or two wrong codewords at the edges of every interleaved block (first / last data
+        # codeword of the block, first / last error codeword): the index arithmetic of the correction step
+        nd = r['data']
+        for b in range(B):
+            last_data = max(x for x in range(nd) if x % B == b)
+            edge = [b, last_data, nd + b, nw - B + b]
+            for p in edge:
+                w = [0] * nw
+                w[p] = 1 + rng.below(255)
+                add('rs_decode %d %s' % (i, fmt_list(w)), 'rs-block-edge')
+            if t >= 2:
+                w = [0] * nw
+                w[last_data] = 1 + rng.below(255)
+                w[nw - B + b] = 1 + rng.below(255)
+                add('rs_decode %d %s' % (i, fmt_list(w)), 'rs-block-edge')
         add('rs_decode %d %s' % (i, fmt_list([rng.below(256) for _ in range(nw - 1)])), 'rs-wrong-length')
         add('rs_decode %d %s' % (i, fmt_list([rng.below(256) for _ in range(nw + 1)])), 'rs-wrong-length')
         # whole-symbol decode: rendering of a random codeword vector
